@@ -38,11 +38,13 @@ import (
 	"testing"
 	"time"
 
+	"github.com/OffchainLabs/go-bitfield"
 	eth2client "github.com/attestantio/go-eth2-client"
 	eth2api "github.com/attestantio/go-eth2-client/api"
 	eth2http "github.com/attestantio/go-eth2-client/http"
 	eth2spec "github.com/attestantio/go-eth2-client/spec"
 	"github.com/attestantio/go-eth2-client/spec/altair"
+	"github.com/attestantio/go-eth2-client/spec/electra"
 	eth2p0 "github.com/attestantio/go-eth2-client/spec/phase0"
 	"github.com/libp2p/go-libp2p/core/host"
 	"github.com/libp2p/go-libp2p/core/peer"
@@ -548,25 +550,17 @@ func (r *run) bmockOpts(node int) []beaconmock.Option {
 			if !ok {
 				return prevAgg(ctx, slot, root)
 			}
-			att, err := prevAgg(ctx, slot, root)
-			if err != nil { // this node's mock never handed that data out: build the same shape around the cluster-wide data
-				var herr error
-				var h eth2p0.Root
-				for k := range r.attStoreSnapshot() { // any root this mock knows
-					h = k
-					if att, herr = prevAgg(ctx, slot, h); herr == nil {
-						break
-					}
-				}
-				if att == nil {
-					return nil, err
-				}
-			}
-			if att.Fulu != nil {
-				att.Fulu.Data = cloneAttData(d)
-			}
+			// the data may have been handed out by ANOTHER node's mock (consensus decided that node's candidate): the same
+			// shape as the default mock's aggregate, around the cluster-wide data
+			valIdx := eth2p0.ValidatorIndex(0)
+			commBits := bitfield.NewBitvector64()
+			commBits.SetBitAt(0, true)
 
-			return att, nil
+			return &eth2spec.VersionedAttestation{
+				Version:        eth2spec.DataVersionFulu,
+				ValidatorIndex: &valIdx,
+				Fulu:           &electra.Attestation{AggregationBits: bitfield.NewBitlist(0), Data: cloneAttData(d), CommitteeBits: commBits},
+			}, nil
 		}
 	})
 
@@ -596,17 +590,6 @@ func (r *run) bnSubmit(node int, duty core.Duty, sds []core.SignedData) error {
 
 // bnSet is a list of signed objects as a beacon node receives them (no validator attribution).
 type bnSet []core.SignedData
-
-func (r *run) attStoreSnapshot() map[eth2p0.Root]bool {
-	r.attMu.Lock()
-	defer r.attMu.Unlock()
-	m := map[eth2p0.Root]bool{}
-	for k := range r.attStore {
-		m[k] = true
-	}
-
-	return m
-}
 
 func (r *run) nodeConf(i int, relayAddr string) app.Config {
 	node := i + 1
